@@ -432,3 +432,13 @@ impl UnwrapOrZero for Result<Uint128, StdError> {
 impl core::fmt::Display for Uint128 { fn fmt(&self, f: &mut core::fmt::Formatter<'_>) -> core::fmt::Result { write!(f, "{}", self.0) } }
 #[verifier::external]
 impl core::fmt::Display for Decimal { fn fmt(&self, f: &mut core::fmt::Formatter<'_>) -> core::fmt::Result { write!(f, "{}", self.0) } }
+
+impl FromSpecImpl<Decimal> for Decimal256 {
+    open spec fn obeys_from_spec() -> bool { true }
+    open spec fn from_spec(d: Decimal) -> Decimal256 { Decimal256(u256_of(d.0 as nat)) }
+}
+impl From<Decimal> for Decimal256 {
+    #[verifier::external_body]
+    fn from(d: Decimal) -> (r: Decimal256) { unimplemented!() }
+}
+pub struct OverflowError { pub kind: u8 }
